@@ -191,13 +191,25 @@ def valueFoldKey {κ : Type} (op : κ → κ → κ) (h : Option J → κ) (init
 
 variable {κ σ : Type}
 
-/-- "no collisions": the idealisation under which the property is stated -/
-structure Env.Inj (e : Env κ σ) : Prop where
+/-- "no collisions": the idealisation under which the property is stated.  The encoder is
+    required to be injective on a set `W` of JSON values (`fun _ => True`: everywhere;
+    `J.WFtop`: on well-formed values, which is what is PROVED of the dump model in
+    Lemmas/JsonDump.lean). -/
+structure Env.Inj (e : Env κ σ) (W : J → Prop) : Prop where
   H : Function.Injective e.H
-  enc : Function.Injective e.enc
+  enc : ∀ a b, W a → W b → e.enc a = e.enc b → a = b
   raw : Function.Injective e.raw
   full : Function.Injective e.full
   tweak : Function.Injective e.tweak
+
+/-- the three objects a configuration feeds to the encoder lie in `W` -/
+structure Config.Ok (e : Env κ σ) (W : J → Prop) (c : Config) : Prop where
+  key : W (mkObj (partList e c Gen.setupParts))
+  mode : W (fieldObj Gen.serialSkipsUnset Gen.serialFields c.get)
+  header : W (fieldObj Gen.headerSkipsUnset Gen.headerFields c.get)
+
+theorem Config.ok_all (e : Env κ σ) (c : Config) : Config.Ok e (fun _ => True) c :=
+  ⟨trivial, trivial, trivial⟩
 
 /-- some label of the key object of setupKernelInfo holds this part -/
 def hasPart (p : KeyPart) : Bool := Gen.setupParts.any fun lp => lp.2.1 == p
@@ -226,11 +238,11 @@ structure Shape : Prop where
 theorem shape : Shape := by
   constructor <;> decide
 
-theorem partVal_eq_of_baseKey_eq (e : Env κ σ) (hi : e.Inj) (sh : Shape) {c₁ c₂ : Config}
-    (h : baseKey e c₁ = baseKey e c₂) :
+theorem partVal_eq_of_baseKey_eq (e : Env κ σ) {W : J → Prop} (hi : e.Inj W) (sh : Shape) {c₁ c₂ : Config}
+    (o₁ : Config.Ok e W c₁) (o₂ : Config.Ok e W c₂) (h : baseKey e c₁ = baseKey e c₂) :
     ∀ lp ∈ Gen.setupParts, partVal e c₁ lp.2 = partVal e c₂ lp.2 := by
   intro lp hlp
-  have h1 := hi.enc (hi.H h)
+  have h1 := hi.enc _ _ o₁.key o₂.key (hi.H h)
   have h2 := lookup_of_mkObj_eq h1 lp.1
   unfold partList at h2
   rw [lookup_filterMap_assoc (partVal e c₁) lp.1 _ sh.nodup,
@@ -250,24 +262,24 @@ theorem exists_part {p : KeyPart} (h : hasPart p = true) :
 theorem render_full (e : Env κ σ) (sh : Shape) : render e Gen.setupRender = e.full := by
   rw [sh.render]; rfl
 
-theorem modeKey_eq_of_baseKey_eq (e : Env κ σ) (hi : e.Inj) (sh : Shape) {c₁ c₂ : Config}
-    (h : baseKey e c₁ = baseKey e c₂) : modeKey e c₁ = modeKey e c₂ := by
+theorem modeKey_eq_of_baseKey_eq (e : Env κ σ) {W : J → Prop} (hi : e.Inj W) (sh : Shape) {c₁ c₂ : Config}
+    (o₁ : Config.Ok e W c₁) (o₂ : Config.Ok e W c₂) (h : baseKey e c₁ = baseKey e c₂) : modeKey e c₁ = modeKey e c₂ := by
   obtain ⟨l, g, hm⟩ := exists_part sh.mode
-  have := partVal_eq_of_baseKey_eq e hi sh h _ hm
+  have := partVal_eq_of_baseKey_eq e hi sh o₁ o₂ h _ hm
   simp only [partVal, render_full e sh] at this
   exact hi.full (Option.some.inj this)
 
-theorem headerKey_eq_of_baseKey_eq (e : Env κ σ) (hi : e.Inj) (sh : Shape) {c₁ c₂ : Config}
-    (h : baseKey e c₁ = baseKey e c₂) : headerKey e c₁ = headerKey e c₂ := by
+theorem headerKey_eq_of_baseKey_eq (e : Env κ σ) {W : J → Prop} (hi : e.Inj W) (sh : Shape) {c₁ c₂ : Config}
+    (o₁ : Config.Ok e W c₁) (o₂ : Config.Ok e W c₂) (h : baseKey e c₁ = baseKey e c₂) : headerKey e c₁ = headerKey e c₂ := by
   obtain ⟨l, g, hm⟩ := exists_part sh.header
-  have := partVal_eq_of_baseKey_eq e hi sh h _ hm
+  have := partVal_eq_of_baseKey_eq e hi sh o₁ o₂ h _ hm
   simp only [partVal, render_full e sh] at this
   exact hi.full (Option.some.inj this)
 
-theorem src_eq_of_baseKey_eq (e : Env κ σ) (hi : e.Inj) (sh : Shape) {c₁ c₂ : Config}
-    (h : baseKey e c₁ = baseKey e c₂) : c₁.src = c₂.src := by
+theorem src_eq_of_baseKey_eq (e : Env κ σ) {W : J → Prop} (hi : e.Inj W) (sh : Shape) {c₁ c₂ : Config}
+    (o₁ : Config.Ok e W c₁) (o₂ : Config.Ok e W c₂) (h : baseKey e c₁ = baseKey e c₂) : c₁.src = c₂.src := by
   obtain ⟨l, g, hm⟩ := exists_part sh.source
-  have := partVal_eq_of_baseKey_eq e hi sh h _ hm
+  have := partVal_eq_of_baseKey_eq e hi sh o₁ o₂ h _ hm
   simp only [partVal, render_full e sh] at this
   exact hi.raw (hi.H (hi.full (Option.some.inj this)))
 
@@ -283,32 +295,32 @@ theorem guarded_of_mem (sh : Shape) {l n g} (h : (l, KeyPart.prop n, g) ∈ Gen.
   have := List.all_eq_true.mp sh.guarded _ h
   simpa using this
 
-theorem get_eq_of_baseKey_eq (e : Env κ σ) (hi : e.Inj) (sh : Shape) {c₁ c₂ : Config}
-    (h : baseKey e c₁ = baseKey e c₂) : ∀ n ∈ hashedNames, c₁.get n = c₂.get n := by
+theorem get_eq_of_baseKey_eq (e : Env κ σ) {W : J → Prop} (hi : e.Inj W) (sh : Shape) {c₁ c₂ : Config}
+    (o₁ : Config.Ok e W c₁) (o₂ : Config.Ok e W c₂) (h : baseKey e c₁ = baseKey e c₂) : ∀ n ∈ hashedNames, c₁.get n = c₂.get n := by
   intro n hn
   unfold hashedNames at hn
   rcases List.mem_append.mp hn with hn | hn
   · rcases List.mem_append.mp hn with hn | hn
-    · have hk := hi.enc (hi.H (hi.tweak (modeKey_eq_of_baseKey_eq e hi sh h)))
+    · have hk := hi.enc _ _ o₁.mode o₂.mode (hi.H (hi.tweak (modeKey_eq_of_baseKey_eq e hi sh o₁ o₂ h)))
       have := objOf_inj hk n hn
       rw [sh.serialSkip, fieldVal_true, fieldVal_true] at this
       exact this
-    · have hk := hi.enc (hi.H (headerKey_eq_of_baseKey_eq e hi sh h))
+    · have hk := hi.enc _ _ o₁.header o₂.header (hi.H (headerKey_eq_of_baseKey_eq e hi sh o₁ o₂ h))
       have := objOf_inj hk n hn
       rw [sh.headerSkip, fieldVal_true, fieldVal_true] at this
       exact this
   · obtain ⟨l, g, hm⟩ := mem_propParts hn
     have hg := guarded_of_mem sh hm
     subst hg
-    have := partVal_eq_of_baseKey_eq e hi sh h _ hm
+    have := partVal_eq_of_baseKey_eq e hi sh o₁ o₂ h _ hm
     simp only [partVal, fieldVal_true] at this
     exact this
 
 /-- the key determines everything that enters it -/
-theorem view_eq_of_baseKey_eq (e : Env κ σ) (hi : e.Inj) (sh : Shape) {c₁ c₂ : Config}
-    (h : baseKey e c₁ = baseKey e c₂) : c₁.view = c₂.view := by
+theorem view_eq_of_baseKey_eq (e : Env κ σ) {W : J → Prop} (hi : e.Inj W) (sh : Shape) {c₁ c₂ : Config}
+    (o₁ : Config.Ok e W c₁) (o₂ : Config.Ok e W c₂) (h : baseKey e c₁ = baseKey e c₂) : c₁.view = c₂.view := by
   unfold Config.view
-  rw [src_eq_of_baseKey_eq e hi sh h, List.map_congr_left (get_eq_of_baseKey_eq e hi sh h)]
+  rw [src_eq_of_baseKey_eq e hi sh o₁ o₂ h, List.map_congr_left (get_eq_of_baseKey_eq e hi sh o₁ o₂ h)]
 
 /-- the key depends on the configuration only through the hashed properties and the source -/
 theorem baseKey_congr (e : Env κ σ) {c₁ c₂ : Config}
